@@ -48,7 +48,7 @@ CONSTRUCTS = [
     '[a|="b-c"]', "[a~='b']", ':-soup-contains(a, b, c, d)', ':lang(a,b,c)', 'a /**/ /**/ b', ':host(a b)', 'a:--x:--y',
     '[data-a="\\\'"]', ':lang("")', 'é.ü#ö', '\\110000', '-a--b', '--a', '-\\-',
 ]
-ATOMS = ['a', '\\a', '\\61 ', '\\aaaaaa', '\\abcdef', '\\aa', '\\1f', ' ', '\t', '\n', '/**/', '/* x */', 'aa,', '"a",', "'", '"', '\\\\',
+ATOMS = ['--a', '-a', '--a,', '-a,', 'a', '\\a', '\\61 ', '\\aaaaaa', '\\abcdef', '\\aa', '\\1f', ' ', '\t', '\n', '/**/', '/* x */', 'aa,', '"a",', "'", '"', '\\\\',
          '\\"', '(', ')', '[', ']', ',', ', ', '>', ' > ', '-', '--', ':', '*', '|', 'n', '+', '1', '\\', '\\\n', 'a ', ' a', 'é', '.a', '#a',
          ':a', ':is(', ':not(a)', '[a]', '\r\n', '\f']
 TERMS = ['', '!', '|!', '\n', ']', ')', '"', '}']
